@@ -1,7 +1,13 @@
 import GluonModel.Sexp
-open GluonModel
+import GluonModel.Surf
+import GluonModel.SurfParse
+open GluonModel GluonModel.Surf
 
 def handle : List Sexp → String
-  | _ => "unimplemented"
+  | [.atom "evalsurf", e] =>
+    match parseExpr e with
+    | some e => renderRes (eval 100000 [] e)
+    | none => "bad-request"
+  | _ => "bad-request"
 
 def main : IO Unit := driverLoop handle
